@@ -129,12 +129,14 @@ def c15_r2(ctx):
     # names: from_str(join(listing))
     fstr = f.calls_to("ticket::TicketFactory::from_str")
     names_ok = False
+    named = []
     for c in fstr:
         for o in f.origins_of_operand(c.args[0]):
             if is_call(o) and "join" in o[0][3]:
                 j = f.call_at[o[0][2]]
                 if f.origins_of_operand(j.args[0]) == listing:
                     names_ok = True
+                    named.append(c)
     ctx.inst("names hashed", fstr[0].where if fstr else ld.where)
     if not names_ok:
         ctx.viol((f.id, "names-not-hashed"), "the entry names of a directory do not reach its hash (a rename inside would go unnoticed)", ld.where)
@@ -169,8 +171,15 @@ def c15_r2(ctx):
         if v != fac:
             ctx.viol((f.id, "entry-other-factory"), "entries are hashed into different factories", c.where)
     # returned factory is the one that got names and entries
+    # (one factory may go by several names: the accumulator of a fold and the variable it started from)
+    family = set()
+    for c in its:
+        family |= f.var_family(c.args[0])
+    if its and named and not any(f.vars_of_place(c.dest) & family for c in named):
+        ctx.viol((f.id, "names-in-other-factory"), "the entry names are hashed into a factory other than the one the entries go into: they do not reach the directory's hash", named[0].where)
     for (bb, idx, rv, pl) in f.constructs("std::result::Result", "Ok"):
-        if pl["local"] == 0 and f.vars_of_operand(rv["ops"][0]) != fac:
+        rvars = f.vars_of_operand(rv["ops"][0])
+        if pl["local"] == 0 and rvars != fac and not (rvars and rvars <= family):
             ctx.viol((f.id, "dir-other-factory-returned"), "the directory hash returned is not the one names and entries were fed to", f.where(bb, idx))
     ctx.ok()
 
@@ -273,8 +282,8 @@ def c15_r3(ctx):
                 and c.args[1]["k"] == "const":
             consts.append((c, c.args[1].get("bits")))
     ctx.inst("base constants (%d)" % len(consts))
-    kinds = {c.name for c, _ in consts}
-    if not {"rem", "div_assign", "mul_assign"} <= kinds:
+    kinds = {c.name.replace("_assign", "") for c, _ in consts}
+    if not {"rem", "div", "mul"} <= kinds:
         ctx.viol((enc.id, "base-ops-missing"), "cannot find the remainder / division / multiplication by the base", enc.where(0))
     for c, b in consts:
         if b != base:
